@@ -20,21 +20,32 @@ CTC = "canonical::get_content_type_and_charset"
 
 
 def folding_guards(b, blk):
-    """(has option guard, has content-type guard) among the guards of blk."""
+    """(option guard, content-type guard): blk is unreachable from the entry once the TRUE edge of the
+    `options.url_encode_form` test (resp. of `content_type == "application/x-www-form-urlencoded"`) is cut - i.e. the
+    condition holds on EVERY way into blk (an `a || b` would leave another way in)."""
     opt = ct = False
-    for a, s, c, truth in guard_conditions(b, blk):
-        if c["kind"] == "place" and "url_encode_form" in place_fields(c["place"]) and b.truth_of_edge(a, s) is True:
-            opt = True
-        if c["kind"] == "local":
-            sl = b.slice([c["local"]])
-            if sl.has_field("url_encode_form") and truth is True:
-                opt = True
-        if c["kind"] == "call" and re.search(r"PartialEq::eq$", c["callee"]) and truth is True:
+    for a in sorted(b.live_blocks()):
+        c = b.cond_of_switch(a)
+        if not c:
+            continue
+        is_opt = (c["kind"] == "place" and "url_encode_form" in place_fields(c["place"])) or (c["kind"] == "local" and b.slice([c["local"]]).has_field("url_encode_form") and not b.slice([c["local"]]).calls)
+        is_ct = False
+        if c["kind"] == "call" and re.search(r"PartialEq::eq$", c["callee"]):
             t = c["term"]
             s0, s1 = b.slice_op(t["args"][0]), b.slice_op(t["args"][1])
             vals = s0.const_values() + s1.const_values()
-            if "application/x-www-form-urlencoded" in vals and (s0.has_field("content_type") or s1.has_field("content_type")):
-                ct = True
+            is_ct = "application/x-www-form-urlencoded" in vals and (s0.has_field("content_type") or s1.has_field("content_type"))
+        if not (is_opt or is_ct):
+            continue
+        for s in b.succ(a):
+            tr = b.truth_of_edge(a, s)
+            if tr is not None and c.get("neg"):
+                tr = not tr
+            if tr is True and blk not in b.reachable_avoiding_edge(0, a, s):
+                if is_opt:
+                    opt = True
+                if is_ct:
+                    ct = True
     return opt, ct
 
 
